@@ -29,6 +29,7 @@ type Program struct {
 	funcIndex map[string]*FuncInfo
 	parents   map[*packages.Package]map[ast.Node]ast.Node
 	graphs    map[*ast.BlockStmt]*FG
+	tables    map[*types.Var]*ast.CompositeLit
 }
 
 // FuncInfo describes one source function (declared function or method).
@@ -246,4 +247,94 @@ func (p *Program) Parents(pk *packages.Package) map[ast.Node]ast.Node {
 	}
 	p.parents[pk] = m
 	return m
+}
+
+// ReadOnlyTable returns the composite literal a package-level variable is initialised with, provided the
+// variable is never assigned, never has an element stored or deleted, and never has its address taken
+// anywhere in its package (so the literal IS its value at every use). nil otherwise.
+func (p *Program) ReadOnlyTable(obj *types.Var) *ast.CompositeLit {
+	if p.tables == nil {
+		p.tables = map[*types.Var]*ast.CompositeLit{}
+	}
+	if l, ok := p.tables[obj]; ok {
+		return l
+	}
+	p.tables[obj] = nil
+	var pk *packages.Package
+	for _, q := range p.Pkgs {
+		if q.Types == obj.Pkg() {
+			pk = q
+		}
+	}
+	if pk == nil {
+		return nil
+	}
+	var lit *ast.CompositeLit
+	written := false
+	parents := p.Parents(pk)
+	for _, f := range pk.Syntax {
+		ast.Inspect(f, func(n ast.Node) bool {
+			switch t := n.(type) {
+			case *ast.ValueSpec:
+				for i, nm := range t.Names {
+					if pk.TypesInfo.Defs[nm] == obj && i < len(t.Values) && len(t.Values) == len(t.Names) {
+						if cl, ok := t.Values[i].(*ast.CompositeLit); ok {
+							lit = cl
+						}
+					}
+				}
+			case *ast.Ident:
+				if pk.TypesInfo.Uses[t] != obj {
+					return true
+				}
+				// the only uses allowed: T[k] read, len(T), range T
+				var child ast.Node = t
+				par := parents[child]
+				for {
+					if pe, ok := par.(*ast.ParenExpr); ok {
+						child, par = pe, parents[pe]
+						continue
+					}
+					break
+				}
+				switch pt := par.(type) {
+				case *ast.IndexExpr:
+					if pt.X != child {
+						return true // used as an index value: a read
+					}
+					// T[k]: must not be an assignment target / inc-dec / address-of operand
+					switch gp := parents[pt].(type) {
+					case *ast.AssignStmt:
+						for _, l := range gp.Lhs {
+							if l == ast.Expr(pt) {
+								written = true
+							}
+						}
+					case *ast.IncDecStmt:
+						written = true
+					case *ast.UnaryExpr:
+						if gp.Op == token.AND {
+							written = true
+						}
+					}
+				case *ast.RangeStmt:
+					if pt.X != child {
+						written = true
+					}
+				case *ast.CallExpr:
+					if id, ok := pt.Fun.(*ast.Ident); !ok || id.Name != "len" {
+						written = true // passed to a function (may be mutated there)
+					}
+				default:
+					written = true
+				}
+			}
+			return true
+		})
+	}
+	if written || lit == nil {
+		return nil
+	}
+	p.tables[obj] = lit
+	return lit
 }
